@@ -127,6 +127,19 @@ def generate(rng, tier, seed):
             if r.ok or r.err != "value":
                 c.fail("unknown padding method not rejected with ValueError")
             yield c
+    # selectors that are not one of the integers 1, 2, 3 under Python equality (implementation only: the model's selector is an integer)
+    from decimal import Decimal
+    from fractions import Fraction
+    for padding in (1.5, 2.5, 3.9, 1.0000001, 0.9999999, "1", "2", "3", " 3 ", "+1", "0_2", b"2", None, "\u0661", "\uff11", Decimal("2.5"), Fraction(7, 2), (1,)):
+        for fn, args in (("mac.generate_cbc_mac", (rb(rng, 16), rb(rng, 9), padding, None, A.DES)),
+                         ("mac.generate_cbc_mac", (rb(rng, 16), rb(rng, 9), padding, None, A.AES)),
+                         ("mac.generate_retail_mac", (rb(rng, 8), rb(rng, 8), rb(rng, 17), padding, None))):
+            c = Case("invalid-padding:non-integer", {"padding": repr(padding), "fn": fn})
+            r = core.call_impl(fn, args)
+            c.calls.append({"fn": fn, "args": [repr(a) for a in args], "entropy": "", "stream": "plain"})
+            if r.ok or r.err != "value":
+                c.fail(f"padding selector {padding!r} (not one of 1, 2, 3) not rejected with ValueError: {'returned ' + r.value.hex() if r.ok else r.err}")
+            yield c
     for ks in list(range(0, 34)):
         c = Case("keylen", {"len": ks})
         c.call("mac.generate_cbc_mac", rb(rng, ks), rb(rng, 11), 2, None, A.DES)
